@@ -3,6 +3,12 @@ package main
 import (
 	"fmt"
 	"go/ast"
+	"go/token"
+	"io/fs"
+	"os"
+	"path/filepath"
+	"sort"
+	"strconv"
 	"strings"
 )
 
@@ -98,5 +104,480 @@ func extractC04(c *Ctx) error {
 	}
 	c.P("Definition median_even_expr : string := %s.", CoqStr(even))
 	c.Info("median_even", even)
+	return extractC04Bytes(c)
+}
+
+// ---- evidence bytes: which proof types are evidence, and what each BytesToHash writes ----
+//
+// Gen/C04.v gets
+//   hashable_registered : the types registered as implementations of evm/types.Hashable (anywhere under x/, util/, app/)
+//   hashable_methods    : the types that have a BytesToHash method
+//   <t>_layout, <t>_each: for the three "rendering" proof types the sequence of pieces BytesToHash writes
+//                         (kind, field, literal bytes); kinds: dec (decimal of a uint64 field), str (a string field),
+//                         lit (literal bytes), each (loop over a repeated string field; its body is <t>_each with kinds
+//                         lit, elem, lendec = decimal of len(element))
+//   tx_proof_shape      : the statements of TxExecutedProof.BytesToHash / GetTX / GetReceipt that decide its bytes
+// A statement or expression outside this small language is an error (the translator no longer understands the code).
+
+type c04Piece struct {
+	kind, field string
+	lit         []byte
+}
+
+func (p c04Piece) coq() string {
+	nums := make([]string, len(p.lit))
+	for i, b := range p.lit {
+		nums[i] = strconv.Itoa(int(b))
+	}
+	return fmt.Sprintf("(%s, %s, [%s])", CoqStr(p.kind), CoqStr(p.field), strings.Join(nums, "; "))
+}
+
+type c04Env struct {
+	c    *Ctx
+	recv string // receiver name
+	elem string // range variable inside a loop ("" outside)
+	acc  string // name of the accumulator ([]byte variable or bytes.Buffer)
+}
+
+func c04Lit(e ast.Expr) ([]byte, bool) {
+	bl, ok := e.(*ast.BasicLit)
+	if !ok {
+		return nil, false
+	}
+	switch bl.Kind {
+	case token.STRING:
+		s, err := strconv.Unquote(bl.Value)
+		if err != nil {
+			return nil, false
+		}
+		return []byte(s), true
+	case token.CHAR:
+		s, err := strconv.Unquote(bl.Value)
+		if err != nil || len(s) != 1 {
+			return nil, false
+		}
+		return []byte(s), true
+	}
+	return nil, false
+}
+
+func (e *c04Env) field(x ast.Expr) (string, bool) {
+	se, ok := x.(*ast.SelectorExpr)
+	if !ok {
+		return "", false
+	}
+	id, ok := se.X.(*ast.Ident)
+	if !ok || id.Name != e.recv {
+		return "", false
+	}
+	return se.Sel.Name, true
+}
+
+func (e *c04Env) isElem(x ast.Expr) bool {
+	id, ok := x.(*ast.Ident)
+	return ok && e.elem != "" && id.Name == e.elem
+}
+
+func (e *c04Env) isLenElem(x ast.Expr) bool {
+	ce, ok := x.(*ast.CallExpr)
+	if !ok || len(ce.Args) != 1 {
+		return false
+	}
+	id, ok := ce.Fun.(*ast.Ident)
+	return ok && id.Name == "len" && e.isElem(ce.Args[0])
+}
+
+// pieces of an expression of type string or []byte
+func (e *c04Env) pieces(x ast.Expr) ([]c04Piece, error) {
+	switch v := x.(type) {
+	case *ast.ParenExpr:
+		return e.pieces(v.X)
+	case *ast.BasicLit:
+		if b, ok := c04Lit(v); ok {
+			return []c04Piece{{kind: "lit", lit: b}}, nil
+		}
+	case *ast.BinaryExpr:
+		if v.Op == token.ADD {
+			a, err := e.pieces(v.X)
+			if err != nil {
+				return nil, err
+			}
+			b, err := e.pieces(v.Y)
+			if err != nil {
+				return nil, err
+			}
+			return append(a, b...), nil
+		}
+	case *ast.Ident:
+		if e.isElem(v) {
+			return []c04Piece{{kind: "elem"}}, nil
+		}
+	case *ast.SelectorExpr:
+		if f, ok := e.field(v); ok {
+			return []c04Piece{{kind: "str", field: f}}, nil
+		}
+	case *ast.CallExpr:
+		fun := e.c.Src(v.Fun)
+		switch {
+		case (fun == "[]byte" || fun == "string") && len(v.Args) == 1:
+			return e.pieces(v.Args[0])
+		case fun == "strconv.FormatUint" && len(v.Args) == 2 && e.c.Src(v.Args[1]) == "10":
+			if f, ok := e.field(v.Args[0]); ok {
+				return []c04Piece{{kind: "dec", field: f}}, nil
+			}
+		case fun == "strconv.Itoa" && len(v.Args) == 1 && e.isLenElem(v.Args[0]):
+			return []c04Piece{{kind: "lendec"}}, nil
+		case fun == "fmt.Sprintf" || fun == "fmt.Sprint":
+			if fun == "fmt.Sprint" || len(v.Args) == 0 {
+				break
+			}
+			fb, ok := c04Lit(v.Args[0])
+			if !ok {
+				break
+			}
+			return e.sprintf(string(fb), v.Args[1:])
+		}
+	}
+	return nil, fmt.Errorf("BytesToHash: expression %q is outside the translated language", e.c.Src(x))
+}
+
+func (e *c04Env) sprintf(format string, args []ast.Expr) ([]c04Piece, error) {
+	var out []c04Piece
+	var lit []byte
+	flush := func() {
+		if len(lit) > 0 {
+			out = append(out, c04Piece{kind: "lit", lit: lit})
+			lit = nil
+		}
+	}
+	ai := 0
+	for i := 0; i < len(format); i++ {
+		ch := format[i]
+		if ch != '%' {
+			lit = append(lit, ch)
+			continue
+		}
+		i++
+		if i >= len(format) {
+			return nil, fmt.Errorf("BytesToHash: dangling %% in format %q", format)
+		}
+		verb := format[i]
+		if verb == '%' {
+			lit = append(lit, '%')
+			continue
+		}
+		if ai >= len(args) {
+			return nil, fmt.Errorf("BytesToHash: format %q has more verbs than arguments", format)
+		}
+		a := args[ai]
+		ai++
+		flush()
+		switch verb {
+		case 'd':
+			if f, ok := e.field(a); ok {
+				out = append(out, c04Piece{kind: "dec", field: f})
+			} else if e.isLenElem(a) {
+				out = append(out, c04Piece{kind: "lendec"})
+			} else {
+				return nil, fmt.Errorf("BytesToHash: %%d of %q not understood", e.c.Src(a))
+			}
+		case 's':
+			if f, ok := e.field(a); ok {
+				out = append(out, c04Piece{kind: "str", field: f})
+			} else if e.isElem(a) {
+				out = append(out, c04Piece{kind: "elem"})
+			} else {
+				return nil, fmt.Errorf("BytesToHash: %%s of %q not understood", e.c.Src(a))
+			}
+		default:
+			return nil, fmt.Errorf("BytesToHash: verb %%%c in %q not understood", verb, format)
+		}
+	}
+	flush()
+	if ai != len(args) {
+		return nil, fmt.Errorf("BytesToHash: format %q has fewer verbs than arguments", format)
+	}
+	return out, nil
+}
+
+// stmt translates one statement that writes to the accumulator; returns pieces (or a loop).
+func (e *c04Env) stmts(list []ast.Stmt, top bool) (pieces []c04Piece, body []c04Piece, err error) {
+	for _, st := range list {
+		switch s := st.(type) {
+		case *ast.DeclStmt: // var res []byte / var buf bytes.Buffer
+			gd, ok := s.Decl.(*ast.GenDecl)
+			if !ok || gd.Tok != token.VAR || len(gd.Specs) != 1 || !top {
+				return nil, nil, fmt.Errorf("BytesToHash: declaration %q not understood", e.c.Src(s))
+			}
+			vs := gd.Specs[0].(*ast.ValueSpec)
+			ty := ""
+			if vs.Type != nil {
+				ty = e.c.Src(vs.Type)
+			}
+			if len(vs.Names) != 1 || len(vs.Values) != 0 || (ty != "[]byte" && ty != "bytes.Buffer") || e.acc != "" {
+				return nil, nil, fmt.Errorf("BytesToHash: declaration %q not understood", e.c.Src(s))
+			}
+			e.acc = vs.Names[0].Name
+		case *ast.AssignStmt: // res = append(res, X...)
+			if len(s.Lhs) != 1 || len(s.Rhs) != 1 || s.Tok != token.ASSIGN || e.c.Src(s.Lhs[0]) != e.acc {
+				return nil, nil, fmt.Errorf("BytesToHash: assignment %q not understood", e.c.Src(s))
+			}
+			ce, ok := s.Rhs[0].(*ast.CallExpr)
+			if !ok || e.c.Src(ce.Fun) != "append" || len(ce.Args) != 2 || e.c.Src(ce.Args[0]) != e.acc || ce.Ellipsis == token.NoPos {
+				return nil, nil, fmt.Errorf("BytesToHash: assignment %q not understood", e.c.Src(s))
+			}
+			ps, err := e.pieces(ce.Args[1])
+			if err != nil {
+				return nil, nil, err
+			}
+			pieces = append(pieces, ps...)
+		case *ast.ExprStmt: // buf.WriteString(X) / buf.WriteByte('c') / buf.Write([]byte(X))
+			ce, ok := s.X.(*ast.CallExpr)
+			if !ok || len(ce.Args) != 1 {
+				return nil, nil, fmt.Errorf("BytesToHash: statement %q not understood", e.c.Src(s))
+			}
+			fun := e.c.Src(ce.Fun)
+			if fun != e.acc+".WriteString" && fun != e.acc+".WriteByte" && fun != e.acc+".Write" {
+				return nil, nil, fmt.Errorf("BytesToHash: statement %q not understood", e.c.Src(s))
+			}
+			ps, err := e.pieces(ce.Args[0])
+			if err != nil {
+				return nil, nil, err
+			}
+			pieces = append(pieces, ps...)
+		case *ast.RangeStmt:
+			f, ok := e.field(s.X)
+			if !ok || !top || body != nil || s.Tok != token.DEFINE || s.Value == nil || (s.Key != nil && e.c.Src(s.Key) != "_") {
+				return nil, nil, fmt.Errorf("BytesToHash: loop %q not understood", e.c.Src(s.X))
+			}
+			inner := &c04Env{c: e.c, recv: e.recv, elem: e.c.Src(s.Value), acc: e.acc}
+			b, _, err := inner.stmts(s.Body.List, false)
+			if err != nil {
+				return nil, nil, err
+			}
+			if len(b) == 0 {
+				return nil, nil, fmt.Errorf("BytesToHash: empty loop body over %s", f)
+			}
+			body = b
+			pieces = append(pieces, c04Piece{kind: "each", field: f})
+		case *ast.ReturnStmt:
+			if !top || len(s.Results) != 2 || e.c.Src(s.Results[1]) != "nil" {
+				return nil, nil, fmt.Errorf("BytesToHash: return %q not understood", e.c.Src(s))
+			}
+			r := e.c.Src(s.Results[0])
+			if e.acc != "" && (r == e.acc || r == e.acc+".Bytes()") {
+				continue
+			}
+			if e.acc == "" && len(pieces) == 0 { // return []byte(h.X), nil
+				ps, err := e.pieces(s.Results[0])
+				if err != nil {
+					return nil, nil, err
+				}
+				pieces = append(pieces, ps...)
+				continue
+			}
+			return nil, nil, fmt.Errorf("BytesToHash: return %q not understood", e.c.Src(s))
+		default:
+			return nil, nil, fmt.Errorf("BytesToHash: statement %q not understood", e.c.Src(st))
+		}
+	}
+	return pieces, body, nil
+}
+
+func c04MergeLits(ps []c04Piece) []c04Piece {
+	var out []c04Piece
+	for _, p := range ps {
+		if p.kind == "lit" && len(out) > 0 && out[len(out)-1].kind == "lit" {
+			out[len(out)-1].lit = append(append([]byte{}, out[len(out)-1].lit...), p.lit...)
+			continue
+		}
+		out = append(out, p)
+	}
+	return out
+}
+
+func c04RecvType(fd *ast.FuncDecl) (typ, name string) {
+	if fd.Recv == nil || len(fd.Recv.List) != 1 {
+		return "", ""
+	}
+	t := fd.Recv.List[0].Type
+	if s, ok := t.(*ast.StarExpr); ok {
+		t = s.X
+	}
+	if id, ok := t.(*ast.Ident); ok {
+		typ = id.Name
+	}
+	if len(fd.Recv.List[0].Names) == 1 {
+		name = fd.Recv.List[0].Names[0].Name
+	}
+	return
+}
+
+func extractC04Bytes(c *Ctx) error {
+	// 1. every registration of implementations of Hashable, anywhere in the production tree
+	registered := map[string]bool{}
+	for _, root := range []string{"x", "util", "app", "internal"} {
+		err := filepath.WalkDir(filepath.Join(c.Repo, root), func(p string, d fs.DirEntry, err error) error {
+			if err != nil {
+				if os.IsNotExist(err) {
+					return nil
+				}
+				return err
+			}
+			if d.IsDir() || !strings.HasSuffix(p, ".go") || strings.HasSuffix(p, "_test.go") {
+				return nil
+			}
+			src, err := os.ReadFile(p)
+			if err != nil {
+				return err
+			}
+			if !strings.Contains(string(src), "Hashable") {
+				return nil
+			}
+			rel, _ := filepath.Rel(c.Repo, p)
+			f, err := c.Parse(rel)
+			if err != nil {
+				return err
+			}
+			for _, ce := range Calls(f, "RegisterImplementations") {
+				if len(ce.Args) < 1 || !strings.Contains(c.Src(ce.Args[0]), "Hashable") {
+					continue
+				}
+				for _, a := range ce.Args[1:] {
+					s := c.Src(a)
+					if !strings.HasPrefix(s, "&") || !strings.HasSuffix(s, "{}") {
+						return fmt.Errorf("%s: Hashable implementation %q not understood", rel, s)
+					}
+					s = strings.TrimSuffix(strings.TrimPrefix(s, "&"), "{}")
+					if i := strings.LastIndex(s, "."); i >= 0 {
+						s = s[i+1:]
+					}
+					registered[s] = true
+				}
+			}
+			return nil
+		})
+		if err != nil {
+			return err
+		}
+	}
+	if len(registered) == 0 {
+		return fmt.Errorf("no registration of Hashable implementations found")
+	}
+	// 2. every BytesToHash method of x/evm/types
+	files, err := c.ParseDir("x/evm/types")
+	if err != nil {
+		return err
+	}
+	methods := map[string]*ast.FuncDecl{}
+	for _, f := range files {
+		for _, d := range f.Decls {
+			fd, ok := d.(*ast.FuncDecl)
+			if !ok || fd.Name.Name != "BytesToHash" || fd.Recv == nil {
+				continue
+			}
+			t, _ := c04RecvType(fd)
+			if t == "" {
+				return fmt.Errorf("BytesToHash with a receiver that is not understood")
+			}
+			methods[t] = fd
+		}
+	}
+	reg := SortedSet(registered)
+	var meth []string
+	for k := range methods {
+		meth = append(meth, k)
+	}
+	sort.Strings(meth)
+	c.P("(* evidence proof types: registered as Hashable / having a BytesToHash method *)")
+	c.P("Definition hashable_registered : list string := %s.", CoqStrList(reg))
+	c.P("Definition hashable_methods : list string := %s.", CoqStrList(meth))
+	c.Info("hashable_registered", reg)
+	known := map[string]string{
+		"SmartContractExecutionErrorProof": "err", "ValidatorBalancesAttestationRes": "bal",
+		"ReferenceBlockAttestationRes": "ref", "TxExecutedProof": "tx",
+	}
+	for _, t := range reg {
+		if _, ok := known[t]; !ok {
+			return fmt.Errorf("new evidence proof type %s is registered as Hashable: it has no model of its BytesToHash (Cons/EvidenceBytes.v)", t)
+		}
+		if methods[t] == nil {
+			return fmt.Errorf("registered proof type %s has no BytesToHash method in x/evm/types", t)
+		}
+	}
+	for _, t := range meth {
+		if _, ok := known[t]; !ok {
+			return fmt.Errorf("type %s has a BytesToHash method but no model (Cons/EvidenceBytes.v)", t)
+		}
+	}
+	// 3. layouts of the rendering types
+	for _, t := range []string{"SmartContractExecutionErrorProof", "ValidatorBalancesAttestationRes", "ReferenceBlockAttestationRes"} {
+		fd := methods[t]
+		if fd == nil {
+			return fmt.Errorf("%s.BytesToHash not found", t)
+		}
+		_, rn := c04RecvType(fd)
+		env := &c04Env{c: c, recv: rn}
+		ps, body, err := env.stmts(fd.Body.List, true)
+		if err != nil {
+			return fmt.Errorf("%s: %v", t, err)
+		}
+		ps, body = c04MergeLits(ps), c04MergeLits(body)
+		pc := make([]string, len(ps))
+		for i, p := range ps {
+			pc[i] = p.coq()
+		}
+		bc := make([]string, len(body))
+		for i, p := range body {
+			bc[i] = p.coq()
+		}
+		c.P("(* %s.BytesToHash *)", t)
+		c.P("Definition %s_layout : list (string * string * list Z) := [%s].", known[t], strings.Join(pc, "; "))
+		c.P("Definition %s_each : list (string * string * list Z) := [%s].", known[t], strings.Join(bc, "; "))
+		c.Info(known[t]+"_layout", strings.Join(pc, " ")+" | each: "+strings.Join(bc, " "))
+	}
+	// 4. TxExecutedProof: the statements that decide its bytes, as source text
+	tx := methods["TxExecutedProof"]
+	if tx == nil {
+		return fmt.Errorf("TxExecutedProof.BytesToHash not found")
+	}
+	var shape []string
+	for _, st := range tx.Body.List {
+		switch s := st.(type) {
+		case *ast.AssignStmt:
+			shape = append(shape, c.Src(s))
+		case *ast.IfStmt:
+			cond := c.Src(s.Cond)
+			if cond == "err != nil" {
+				continue // error propagation
+			}
+			var inner []string
+			for _, b := range s.Body.List {
+				inner = append(inner, c.Src(b))
+			}
+			if s.Else != nil {
+				return fmt.Errorf("TxExecutedProof.BytesToHash: else branch not understood")
+			}
+			shape = append(shape, "if "+cond+" { "+strings.Join(inner, "; ")+" }")
+		case *ast.ReturnStmt:
+			shape = append(shape, c.Src(s))
+		default:
+			return fmt.Errorf("TxExecutedProof.BytesToHash: statement %q not understood", c.Src(st))
+		}
+	}
+	for _, g := range []struct{ name, want string }{{"GetTX", "UnmarshalBinary"}, {"GetReceipt", "UnmarshalBinary"}} {
+		fd := FindFuncIn(files, "TxExecutedProof", g.name)
+		if fd == nil {
+			return fmt.Errorf("TxExecutedProof.%s not found", g.name)
+		}
+		cs := Calls(fd.Body, g.want)
+		if len(cs) != 1 {
+			return fmt.Errorf("TxExecutedProof.%s: expected exactly one %s call", g.name, g.want)
+		}
+		shape = append(shape, g.name+": "+c.Src(cs[0]))
+	}
+	c.P("(* TxExecutedProof.BytesToHash / GetTX / GetReceipt *)")
+	c.P("Definition tx_proof_shape : list string := %s.", CoqStrList(shape))
+	c.Info("tx_proof_shape", shape)
 	return nil
 }
